@@ -26,6 +26,10 @@ def run(chk):
                 'with 0,1,2,3 arguments, always_connect on/off, namespaces default / list / "*", function handlers and '
                 'class-based namespaces; non-trivial = at least one refusal or two terminating causes; distinct by effect signature',
                 nontrivial)
+    # asyncio server: every interleaving of 2-3 concurrent terminating causes (package C20/C04Async)
+    if not chk.broken:
+        from props import c04async
+        c04async.run_async_part(chk)
 
 
 def replay(chk, data):
